@@ -53,7 +53,7 @@ SeqSet(s) == IF s = <<>> THEN {} ELSE {Head(s)} \cup SeqSet(Tail(s))
 InitState ==
   /\ mem = EmptyFn /\ units = <<>> /\ rq = <<>> /\ used = EmptyFn /\ running = {}
   /\ stopped = FALSE /\ pend = {} /\ causes = {} /\ cancelOK = {} /\ hcanc = {}
-  /\ cbs = EmptyFn /\ notes = [open |-> 0, sent |-> 0] /\ waitRet = FALSE /\ rdDone = FALSE
+  /\ cbs = EmptyFn /\ notes = [open |-> 0, sent |-> 0, bp |-> 0] /\ waitRet = FALSE /\ rdDone = FALSE
   /\ sendBad = FALSE /\ stopOpen = FALSE
 
 Init == l = 1 /\ conc = 1 /\ push = FALSE /\ InitState
@@ -523,7 +523,7 @@ Reset ==
   /\ conc' = Ev.conc /\ push' = Ev.push
   /\ mem' = EmptyFn /\ units' = <<>> /\ rq' = <<>> /\ used' = EmptyFn /\ running' = {}
   /\ stopped' = FALSE /\ pend' = {} /\ causes' = {} /\ cancelOK' = {} /\ hcanc' = {}
-  /\ cbs' = EmptyFn /\ notes' = [open |-> 0, sent |-> 0] /\ waitRet' = FALSE /\ rdDone' = FALSE
+  /\ cbs' = EmptyFn /\ notes' = [open |-> 0, sent |-> 0, bp |-> 0] /\ waitRet' = FALSE /\ rdDone' = FALSE
   /\ sendBad' = FALSE /\ stopOpen' = FALSE
 
 Start ==   \* (re)start on a fresh channel: a new generation
@@ -532,7 +532,7 @@ Start ==   \* (re)start on a fresh channel: a new generation
   /\ mem' = EmptyFn /\ units' = <<>> /\ rq' = <<>> /\ used' = EmptyFn /\ running' = {}
   /\ stopped' = FALSE /\ pend' = {} /\ causes' = {} /\ cancelOK' = cancelOK \cap {"__base"} /\ hcanc' = {}   \* an ended base context stays ended
   /\ UNCHANGED cbs           \* a callback outstanding across a restart is still outstanding
-  /\ notes' = [open |-> 0, sent |-> 0] /\ waitRet' = FALSE /\ rdDone' = FALSE
+  /\ notes' = [open |-> 0, sent |-> 0, bp |-> 0] /\ waitRet' = FALSE /\ rdDone' = FALSE
   /\ sendBad' = FALSE /\ stopOpen' = FALSE
   /\ UNCHANGED <<conc, push>>
 
@@ -546,6 +546,14 @@ Final ==
   /\ Imp("C08", Ev.qlen = 0 /\ ~Ev.running)
   /\ Imp("C10", Ev.closes = 1)
   /\ UNCHANGED <<conc, push, mem, units, rq, used, running, stopped, pend, causes, cancelOK, hcanc, cbs, notes, waitRet, rdDone, sendBad, stopOpen>>
+
+\* The dispatcher reports (hook srv.barrier.pass) that the batch it held has passed the notification barrier: by now the
+\* silent Dequeue and Dispatch steps of that batch have been taken (and the next batch has not been dequeued yet).
+\* (notes.bp counts these reports; every one of them has its silent Dispatch.)
+BarrierPass == /\ IsEvent("BarrierPass") /\ Held = {}
+               /\ Cardinality({u \in 1..Len(units) : units[u].st \in {"disp", "sent"}}) >= notes.bp + 1
+               /\ notes' = [notes EXCEPT !.bp = @ + 1]
+               /\ UNCHANGED <<conc, push, mem, units, rq, used, running, stopped, pend, causes, cancelOK, hcanc, cbs, waitRet, rdDone, sendBad, stopOpen>>
 
 \* events that carry no obligation for this contract
 Ignored == /\ l <= Len(Trace) /\ Ev.ev \in {"PeerClose", "Teardown", "SB", "SE", "RB", "RE", "CB", "CE", "Drift"}
@@ -561,7 +569,7 @@ Terminal == /\ l <= Len(Trace) /\ Ev.ev \in {"Crash", "Deadlock", "Leak"}
 Next == \/ Reset \/ Start \/ RecvMsg \/ Enqueue \/ Dequeue \/ Dispatch \/ HStart \/ HCancel \/ HExit
         \/ SendOK \/ SendFailed \/ StopB \/ StopE \/ RecvErr \/ ChClose \/ CancelB \/ CancelE \/ BaseEnd
         \/ NotifyB \/ NotifyE \/ CallbackB \/ CtxEnd \/ CallbackE \/ WaitStatus \/ Quiescent
-        \/ SendFailArmed \/ Final \/ Ignored \/ Terminal
+        \/ SendFailArmed \/ Final \/ BarrierPass \/ Ignored \/ Terminal
 
 Spec == Init /\ [][Next]_vars
 
